@@ -12,8 +12,8 @@ type BrotliReader struct {
 	berr error         // sticky error
 }
 
-func NewBrotliReader(body io.ReadCloser) *BrotliReader {
-	return &BrotliReader{Body: body}
+func NewBrotliReader(body io.ReadCloser) CompressReader {
+	return withMessageEnd(&BrotliReader{Body: body})
 }
 
 func (br *BrotliReader) Read(p []byte) (n int, err error) {
